@@ -6,7 +6,8 @@ VARIABLES tid, l, obs, bad
 tvars == <<tid, l, obs, bad>>
 T == Traces[tid]
 EvOf(e) == [k |-> e.k, should |-> e.should, cause |-> e.cause, connected |-> e.connected,
-            onereply |-> e.onereply, hascode |-> e.hascode, code |-> e.code, stopreq |-> e.stopreq]
+            onereply |-> e.onereply, hascode |-> e.hascode, code |-> e.code, stopreq |-> e.stopreq,
+            unsafe |-> e.unsafe]
 TInit == tid \in 1..Len(Traces) /\ l = 1 /\ obs = InitObs /\ bad = ""
 Step == /\ bad = "" /\ l <= Len(T.ev)
         /\ LET e == EvOf(T.ev[l])
